@@ -15,7 +15,7 @@
    with m*m = |d|^2. *)
 From Coq Require Import ZArith List Bool Arith Lia Field Permutation QArith Qcanon.
 From V Require Import Base.FieldSig Base.ExecQ.
-From V Require Import Model.SurveyMachine Model.SurveyMachineExec Proofs.SurveyMachine.
+From V Require Import Model.SurveyMachine Model.SurveyMachineExec Proofs.SurveyMachine Proofs.SurveyLabels.
 Import ListNotations.
 Close Scope Qc_scope.
 Close Scope Q_scope.
@@ -79,10 +79,86 @@ Section C13.
               nth (nth i Is 0) keys 0%Z = nth i ks 0%Z /\ nth i Is 0 < length keys.
   Proof. exact (sel_axis_spec keys s ks Is). Qed.
 
-  (* select_exact_subcube_partial: the named data sets (synthetic, ...) and the
-     remove_empty recursion are covered by the correspondence only; the full
-     statement would add `forall n r, lookup n (named sv) = Some r -> ...` and
-     `src (result) = filter nonempty (chosen)` -- see docs/C13.md. *)
+  (* ---- selection BY LABEL (labels = keys, data = function of label triples).
+     [sub_by_label w1 sv1 w sv]: the keys of sv1 are keys of sv, and observed
+     data, EVERY named data set, noise-floor / relative-error arrays and explicit
+     std of sv1 agree with those of sv on every label triple of sv1; attributes
+     equal.  Holds for every order of the requested names; a repeated or unknown
+     name is rejected (that is the policy of the code: xarray refuses duplicate
+     labels, the dict lookup refuses unknown ones). *)
+  Theorem select_once_by_label (w : @world F) (sv : @survey F) a b c w1 sv1 :
+    keys_ok sv -> refs_ok (length (hset w)) sv -> drefs_ok (length (hdat w)) sv ->
+    select_once w sv a b c = Some (w1, sv1) ->
+    sub_by_label w1 sv1 w sv /\
+    src sv1 = chosen (src sv) a /\ rec sv1 = chosen (rec sv) b /\ frq sv1 = chosen (frq sv) c /\
+    keys_ok sv1 /\ refs_ok (length (hset w1)) sv1 /\ drefs_ok (length (hdat w1)) sv1 /\
+    (exists e, hdat w1 = hdat w ++ e) /\ (exists e, hset w1 = hset w ++ e) /\ svs w1 = svs w.
+  Proof. exact (select_once_sub ltb off2 w sv a b c w1 sv1). Qed.
+
+  (* the operation Survey.select, remove_empty included *)
+  Theorem select_subcube_by_label s sS sR sF rm (w : @world F) sv w' :
+    nth_error (svs w) s = Some sv ->
+    keys_ok sv -> refs_ok (length (hset w)) sv -> drefs_ok (length (hdat w)) sv ->
+    select s sS sR sF rm w = (w', OutOk) ->
+    exists sv',
+      svs w' = svs w ++ [sv'] /\ sub_by_label w' sv' w sv /\
+      keys_ok sv' /\ refs_ok (length (hset w')) sv' /\ drefs_ok (length (hdat w')) sv' /\
+      (exists e, hdat w' = hdat w ++ e) /\ (exists e, hset w' = hset w ++ e) /\
+      let ks := chosen (src sv) sS in
+      let kr := chosen (rec sv) sR in
+      let kf := chosen (frq sv) sF in
+      if rm && any_data (hdat w) sv ks kr kf
+      then src sv' = filter (src_has_data (hdat w) sv kr kf) ks /\
+           rec sv' = filter (rec_has_data (hdat w) sv ks kf) kr /\
+           frq sv' = filter (frq_has_data (hdat w) sv ks kr) kf
+      else src sv' = ks /\ rec sv' = kr /\ frq sv' = kf.
+  Proof. exact (select_by_label ltb off2 s sS sR sF rm w sv w'). Qed.
+
+  (* accepted requests: per axis, nothing, or any list of known keys without
+     repetition -- in ANY order; otherwise select fails and changes nothing *)
+  Theorem select_axis_accepts keys s :
+    sel_axis keys s <> None <->
+    match s with None => True | Some l => NoDup l /\ incl l keys end.
+  Proof. exact (sel_axis_accepts ltb off2 keys s). Qed.
+  Theorem select_accepts (w : @world F) (sv : @survey F) a b c :
+    select_once w sv a b c <> None <->
+    (sel_axis (src sv) a <> None /\ sel_axis (rec sv) b <> None /\ sel_axis (frq sv) c <> None).
+  Proof. exact (select_once_accepts w sv a b c). Qed.
+  Theorem select_error_changes_nothing s a b c rm (w w' : @world F) o :
+    select s a b c rm w = (w', o) -> o = OutOk \/ w' = w.
+  Proof. exact (select_unchanged_on_error s a b c rm w w' o). Qed.
+
+  (* restrictions compose, and selecting from a selection is selecting directly *)
+  Theorem restriction_transitive (w2 : @world F) sv2 (w1 : @world F) sv1 (w : @world F) sv :
+    sub_by_label w2 sv2 w1 sv1 -> sub_by_label w1 sv1 w sv -> sub_by_label w2 sv2 w sv.
+  Proof. exact (sub_by_label_trans w2 sv2 w1 sv1 w sv). Qed.
+  Theorem select_compose (w : @world F) (sv : @survey F) a b c w1 sv1 a' b' c' w2 sv2 :
+    keys_ok sv -> refs_ok (length (hset w)) sv -> drefs_ok (length (hdat w)) sv ->
+    select_once w sv a b c = Some (w1, sv1) ->
+    select_once w1 sv1 a' b' c' = Some (w2, sv2) ->
+    sub_by_label w2 sv2 w sv /\
+    src sv2 = chosen (src sv) (compose_sel a a') /\
+    rec sv2 = chosen (rec sv) (compose_sel b b') /\
+    frq sv2 = chosen (frq sv) (compose_sel c c') /\
+    exists w3 sv3,
+      select_once w sv (compose_sel a a') (compose_sel b b') (compose_sel c c') = Some (w3, sv3) /\
+      src sv3 = src sv2 /\ rec sv3 = rec sv2 /\ frq sv3 = frq sv2 /\
+      sub_by_label w3 sv3 w sv /\
+      same_by_label (hdat w2) sv2 (obs sv2) (hdat w3) sv3 (obs sv3).
+  Proof. exact (select_once_compose ltb off2 w sv a b c w1 sv1 a' b' c' w2 sv2). Qed.
+
+  (* a selection never touches the settings of an existing survey (instance of
+     settings_frame, stated for the single operation) *)
+  Theorem select_keeps_existing_settings s a b c rm (w : @world F) i :
+    wf w -> i < length (svs w) ->
+    settings_at (fst (select s a b c rm w)) i = settings_at w i.
+  Proof. exact (select_settings_frame ltb off2 s a b c rm w i). Qed.
+
+  (* all invariants used above (setting refs, data refs, duplicate-free keys)
+     hold in every reachable state *)
+  Theorem reachable_invariants (ops : list (@op F)) (w : @world F) :
+    wf_all w -> wf_all (run ltb off2 false ops w).
+  Proof. exact (run_wf_all ltb off2 ops w). Qed.
 
   (* ---- standard deviation *)
   Theorem std_none_iff_unset (w : @world F) (sv : @survey F) :
@@ -126,26 +202,30 @@ Section C13.
       end.
   Proof. exact (amp_threshold_repaired hs sv). Qed.
 
+  (* COMPLETE specification of add_noise, every target (observed, an existing
+     named data set, a new one): each entry of the array written to is
+       NaN            if |d_obs| < min_amplitude or the offset is outside the range,
+       unchanged      if no standard deviation is defined,
+       NaN            if its standard deviation is NaN,
+       old + noise    otherwise                         ([an_spec_cell]);
+     cuts are decided on data.observed as it was, std^2 from the settings as
+     they were.  "Exactly": it is an equation, and [cuts_frame] says no other
+     data array changes (settings: settings_frame). *)
   Theorem cuts_spec s p noise (w : @world F) sv i j k :
-    nth_error (svs w) s = Some sv -> a_to p = TObs -> obs sv < length (hdat w) ->
+    nth_error (svs w) s = Some sv -> drefs_ok (length (hdat w)) sv ->
     i < length (src sv) -> j < length (rec sv) -> k < length (frq sv) ->
-    cut_mask ltb off2 p (snd (amp_threshold false (hset w) sv (a_minamp p)))
-             (deref (hdat w) (obs sv)) sv i j k = true ->
-    cget (deref (hdat (fst (add_noise ltb off2 false s p noise w))) (obs sv)) i j k = NaN.
-  Proof. exact (add_noise_cut_is_nan ltb off2 s p noise w sv i j k). Qed.
+    cget (deref (hdat (fst (add_noise ltb off2 false s p noise w))) (an_tgt w sv p)) i j k
+    = an_spec_cell
+        (cut_mask ltb off2 p (snd (amp_threshold false (hset w) sv (a_minamp p)))
+                  (deref (hdat w) (obs sv)) sv i j k)
+        (std2_at w sv i j k) (an_t0 w sv p i j k) (cget noise i j k).
+  Proof. exact (add_noise_spec ltb off2 s p noise w sv i j k). Qed.
 
-  (* cuts_spec_partial: "exactly": the converse is proved only when no standard
-     deviation is defined (no noise is added then); with a standard deviation
-     the uncut entries receive data + noise, which is checked by correspondence. *)
-  Theorem cuts_spec_uncut_partial s p noise (w : @world F) sv i j k :
-    nth_error (svs w) s = Some sv -> a_to p = TObs -> obs sv < length (hdat w) ->
-    i < length (src sv) -> j < length (rec sv) -> k < length (frq sv) ->
-    std_arr sv = None -> nf_attr sv = ANone -> re_attr sv = ANone ->
-    cut_mask ltb off2 p (snd (amp_threshold false (hset w) sv (a_minamp p)))
-             (deref (hdat w) (obs sv)) sv i j k = false ->
-    cget (deref (hdat (fst (add_noise ltb off2 false s p noise w))) (obs sv)) i j k
-    = cget (deref (hdat w) (obs sv)) i j k.
-  Proof. exact (add_noise_uncut_unchanged ltb off2 s p noise w sv i j k). Qed.
+  Theorem cuts_frame s p noise (w : @world F) sv r :
+    nth_error (svs w) s = Some sv ->
+    r < length (hdat w) -> r <> an_tgt w sv p ->
+    deref (hdat (fst (add_noise ltb off2 false s p noise w))) r = deref (hdat w) r.
+  Proof. exact (add_noise_data_frame ltb off2 s p noise w sv r). Qed.
 
   (* ---- arithmetic: any field *)
   Hypothesis Fth : field_theory F0 F1 Fadd Fmul Fsub Fopp Fdiv Finv (@eq F).
@@ -217,6 +297,30 @@ Example misfit_perm_nonvacuous (x y z : Qc) :
   misfit_of [Some x; None; Some y; Some z] = misfit_of [Some z; Some y; None; Some x].
 Proof. exact (misfit_perm_instance x y z). Qed.
 
+Example select_by_label_nonvacuous :
+  wf_all ex2_w /\
+  snd (select 0 (Some [3%Z; 2%Z; 1%Z]) None None true ex2_w) = OutOk /\
+  map (fun sv => (src sv, rec sv, frq sv)) (svs ex2_sel)
+  = [([1%Z; 2%Z; 3%Z], [1%Z; 2%Z], [1%Z]); ([3%Z; 1%Z], [1%Z], [1%Z])].
+Proof. exact (conj ex2_wf_all ex2_select_ok). Qed.
+
+Example select_rejects_repeated_and_unknown_names :
+  select 0 (Some [1%Z; 1%Z]) None None false ex2_w = (ex2_w, OutErr 2) /\
+  select 0 None (Some [2%Z; 9%Z]) None false ex2_w = (ex2_w, OutErr 2).
+Proof. exact ex2_select_rejects. Qed.
+
+Example cuts_spec_nonvacuous :
+  (d_cell (an_spec_cell
+     (cut_mask qltb ex_off (mkP 0%Q None MHalfNf TObs)
+               (snd (amp_threshold false (hset ex_w) ex_sv MHalfNf)) (deref (hdat ex_w) 0) ex_sv 0 0 0)
+     (std2_at ex_w ex_sv 0 0 0) (cget ex_obs 0 0 0) (cget ex_noise 0 0 0)),
+   d_cell (an_spec_cell
+     (cut_mask qltb ex_off (mkP 0%Q None MHalfNf TObs)
+               (snd (amp_threshold false (hset ex_w) ex_sv MHalfNf)) (deref (hdat ex_w) 0) ex_sv 0 1 0)
+     (std2_at ex_w ex_sv 0 1 0) (cget ex_obs 0 1 0) (cget ex_noise 0 1 0)))
+  = (Some ((7%Z, 2%Z), (9%Z, 2%Z)), None).
+Proof. exact ex_cuts_spec_values. Qed.
+
 Example cut_nonvacuous :
   d_cube (deref (hdat (run qltb ex_off false [ex_an 0] ex_w)) 0)
   = [[[Some ((7%Z, 2%Z), (9%Z, 2%Z))]; [None]]].
@@ -227,13 +331,22 @@ Print Assumptions wf_invariant.
 Print Assumptions copy_keeps_settings.
 Print Assumptions select_exact_subcube.
 Print Assumptions select_keys.
+Print Assumptions select_once_by_label.
+Print Assumptions select_subcube_by_label.
+Print Assumptions select_axis_accepts.
+Print Assumptions select_accepts.
+Print Assumptions select_error_changes_nothing.
+Print Assumptions restriction_transitive.
+Print Assumptions select_compose.
+Print Assumptions select_keeps_existing_settings.
+Print Assumptions reachable_invariants.
 Print Assumptions std_none_iff_unset.
 Print Assumptions std_explicit_wins.
 Print Assumptions std_computed_pointwise.
 Print Assumptions broadcast_spec.
 Print Assumptions half_nf_threshold.
 Print Assumptions cuts_spec.
-Print Assumptions cuts_spec_uncut_partial.
+Print Assumptions cuts_frame.
 Print Assumptions std_formula.
 Print Assumptions std_formula_nf_only.
 Print Assumptions std_formula_re_only.
@@ -247,4 +360,7 @@ Print Assumptions settings_frame_refuted_through_shared_selection.
 Print Assumptions settings_frame_nonvacuous.
 Print Assumptions std_formula_nonvacuous.
 Print Assumptions misfit_perm_nonvacuous.
+Print Assumptions select_by_label_nonvacuous.
+Print Assumptions select_rejects_repeated_and_unknown_names.
+Print Assumptions cuts_spec_nonvacuous.
 Print Assumptions cut_nonvacuous.
